@@ -107,7 +107,11 @@ func solveOne(o *Obl, opt solveOpts) {
 			if sp.cvc5 {
 				f = fc
 			}
-			st, out, d := runSolver(ctx, sp, f, opt.timeoutS)
+			to := opt.timeoutS
+			if o.ExpectSat && to > 3 {
+				to = 3 // satisfiability probes: a quick model or nothing
+			}
+			st, out, d := runSolver(ctx, sp, f, to)
 			ch <- res{sp, st, out, d}
 		}()
 	}
